@@ -38,7 +38,7 @@ func init() {
 		Level: "exploration",
 		Rule: "engine P: (i) direct RGBA colours through SetCReg -> Bytes -> Decode (quick: every channel pair swept 256x256 with the other two channels at each of 7 fill values = 19.3M colours crossing every 1/2/3/4-byte form boundary; thorough: all 2^32), all 256 palette-index and register-reference arguments, blends (quick 256x256x16, thorough all 2^24); " +
 			"(ii) decoder tables: all 256 one-byte, 65536 two-byte, channel sweeps (thorough: all 2^24 three-byte and 2^32 four-byte) patterns against the reference tables; (iii) Color.Resolve for all 2^24 (t,c0,c1) under 4 palette/register contexts and through the Renderer's paint for a subset; " +
-			"(iv) suggested palettes through Encoder.Reset -> Decode: every palette with <=3 explicit entries at positions {0,1,2,31,62,63} over 20 valid premultiplied colours, uniform palettes of every length, all two-byte-able colours at position 0. " +
+			"(iv) suggested palettes through Encoder.Reset -> Decode, next to the default and next to a custom viewBox: every palette with <=3 explicit entries at positions {0,1,2,31,62,63} over 20 valid premultiplied colours, uniform palettes of every length, all two-byte-able colours at position 0. " +
 			"distinct = hash of (route, form length or colour kind, validity class); non-trivial = colour needs a 2-, 3- or 4-byte form, or blend with 0<t<255",
 		Assumptions: []string{"reference colour tables /verif/ref written from the specification"},
 		Units: func(tier string) int {
@@ -613,11 +613,18 @@ func (st *c09State) palettes(u int) {
 	}
 }
 
+// palette writes the suggested palette next to the default viewBox (palette chunk only) and
+// next to a custom one (two chunks).
 func (st *c09State) palette(pal *[64]color.RGBA) {
+	st.paletteVB(pal, ivg.DefaultViewBox)
+	st.paletteVB(pal, ivg.ViewBox{MinX: -24, MinY: -20.5, MaxX: 300, MaxY: 24})
+}
+
+func (st *c09State) paletteVB(pal *[64]color.RGBA, vb ivg.ViewBox) {
 	w := st.w
 	w.EvalN(1)
 	var e encode.Encoder
-	e.Reset(ivg.DefaultViewBox, *pal)
+	e.Reset(vb, *pal)
 	out, err := e.Bytes()
 	mk := func() c09Case {
 		m := map[int]color.RGBA{}
@@ -639,6 +646,9 @@ func (st *c09State) palette(pal *[64]color.RGBA) {
 	}
 	w.Trace()
 	got := rd.Calls[0].Pal
+	if rd.Calls[0].VB != vb {
+		w.Fail("palette:viewbox-changed", fmt.Sprintf("viewBox %v written next to the palette comes back as %v (metadata %x)", vb, rd.Calls[0].VB, out), mk())
+	}
 	if *got != *pal {
 		i := 0
 		for ; i < 64 && got[i] == pal[i]; i++ {
@@ -659,7 +669,8 @@ func (st *c09State) palette(pal *[64]color.RGBA) {
 	for ; n >= 0 && pal[n] == (color.RGBA{0, 0, 0, 0xff}); n-- {
 	}
 	h.Byte(byte(n))
-	if len(out) > 8 {
+	h.Bool(vb == ivg.DefaultViewBox)
+	if vb == ivg.DefaultViewBox && len(out) > 8 {
 		h.Byte(out[7] >> 6)
 	}
 	w.Outcome(h.Sum(), n >= 0)
